@@ -68,7 +68,14 @@ func (s *badgerStore) CheckAndSaveNonce(ID string, nonce int64) error {
 		}
 
 		if s.nonceExpire > 0 {
-			return setExpiringItem(txn, key, &nonce, s.nonceExpire)
+			// The entry must outlive the nonce's own freshness window, which is
+			// measured from the nonce (not from now) and may be future-dated;
+			// badger expires entries with one-second granularity.
+			ttl := s.nonceExpire + time.Second
+			if ahead := time.Unix(0, nonce).Sub(time.Now()); ahead > 0 {
+				ttl += ahead
+			}
+			return setExpiringItem(txn, key, &nonce, ttl)
 		}
 		return setItem(txn, key, &nonce)
 	})
